@@ -504,8 +504,36 @@ func (e *Engine) excFor(ref *Term, t types.Type) frameExc {
 	return frameExc{ref, ""}
 }
 
+var histN int
+
+// setOnceSlots: pointer fields that, once set, are never cleared (history constraint "once non-nil,
+// stays non-nil"). Checked at every store of the repository to such a field (HIST obligation) and
+// assumed across every havoc of the field's family (loop cut, call summary).
+var setOnceSlots = map[string]bool{
+	"model.ObjectFieldAttribute.RefPacket": true,
+}
+
 // havocFamily forgets everything known about a slot family: a new base version.
 func (s *State) havocFamily(fam string, ver int) {
+	var old Heap
+	var once []string
+	for slot := range setOnceSlots {
+		if slotFamily(slot) == fam {
+			once = append(once, slot)
+		}
+	}
+	if len(once) > 0 {
+		old = s.heap.clone()
+		defer func() {
+			for _, slot := range once {
+				histN++
+				bv := Sym(fmt.Sprintf("bv.hist#%d", histN), SInt)
+				before := s.selectIn(old, slot, SInt, []*Term{bv})
+				after := s.sel(slot, SInt, []*Term{bv})
+				s.assume(Forall(bv, Implies(Ne(before, Zero), Ne(after, Zero))))
+			}
+		}()
+	}
 	delete(s.heap.frames, fam)
 	s.heap.verAlloc[ver] = *s.nalloc
 	s.heap.famVer[fam] = ver
@@ -862,4 +890,21 @@ func sortedKeys[V any](m map[string]V) []string {
 	}
 	sort.Strings(ks)
 	return ks
+}
+
+// histStore: a store of the repository to a set-once field keeps the history constraint: the old
+// value is nil or the new value is non-nil.
+func (e *Engine) histStore(s *State, in ssa.Instruction, pl Place, t types.Type, v Value) {
+	for i, sl := range e.layout(t) {
+		slot := pl.Prefix + sl.Suffix
+		if !setOnceSlots[slot] || len(pl.Addr) == 0 {
+			continue
+		}
+		oldv := s.sel(slot, SInt, pl.Addr)
+		name := e.siteName("INV", in, "set-once")
+		if ch := s.top().chain; ch != "" {
+			name = ch + "/" + name
+		}
+		e.oblige(s, "INV", name, slot+" is never cleared once set", in.Pos(), Or(Eq(oldv, Zero), Ne(v[i], Zero)))
+	}
 }
